@@ -85,6 +85,11 @@ class AlwaysEqual:
     __hash__ = object.__hash__
 
 
+class AsyncDone(StopAsyncIteration):
+    """what `await iterator.__anext__()` raises at the end of an iteration nobody guarded: an
+    exception like any other once it escapes a root activity"""
+
+
 class EmptyBoom(Boom):
     """a falsy exception (like an empty error collection): a failure like any other"""
     def __len__(self):
@@ -197,7 +202,7 @@ def run_history(case, rng):
                 await (time + 1)
                 log.append(('mid', number, time.now))
                 if kind == 'fail' and number == n_roots - 1:
-                    exc = (EmptyBoom if falsy else Boom)(number)
+                    exc = (EmptyBoom if falsy else AsyncDone if number % 2 else Boom)(number)
                     raised.append(exc)
                     raise exc
                 await (time + 1)
